@@ -58,6 +58,15 @@ int __real_listen (int, int); int __wrap_listen (int fd, int b) { long k; consul
 int __real_setsockopt (int, int, int, const void *, socklen_t); int __wrap_setsockopt (int fd, int l, int o, const void *v, socklen_t n) { long k; consult ("setsockopt", &k); return __real_setsockopt (fd, l, o, v, n); }
 int __real_getsockopt (int, int, int, void *, socklen_t *); int __wrap_getsockopt (int fd, int l, int o, void *v, socklen_t *n) { long k; consult ("getsockopt", &k); return __real_getsockopt (fd, l, o, v, n); }
 
+#include <sys/time.h>
+static volatile long nsig; static void on_alarm (int x) { (void) x; nsig++; }
+static void storm (long usec) {
+	struct itimerval it; struct sigaction sa;
+	memset (&sa, 0, sizeof sa); sa.sa_handler = on_alarm; sa.sa_flags = 0;     /* no SA_RESTART */
+	sigaction (SIGALRM, &sa, NULL);
+	it.it_interval.tv_sec = 0; it.it_interval.tv_usec = usec; it.it_value = it.it_interval;
+	setitimer (ITIMER_REAL, &it, NULL);
+}
 static double now_ms (void) { struct timespec ts; clock_gettime (CLOCK_MONOTONIC, &ts); return ts.tv_sec * 1e3 + ts.tv_nsec * 1e-6; }
 static void getters (int h) {
 	PSocket *s = sk[h];
@@ -177,6 +186,7 @@ int main (int argc, char **argv) {
 			for (tok = strtok_r (pl + 1, ",", &save); tok && nplan < 32; tok = strtok_r (NULL, ",", &save)) { char *c = strchr (tok, ':'); if (!c) continue; *c = 0; snprintf (plan[nplan].call, 16, "%s", tok); snprintf (plan[nplan].out, 16, "%s", c + 1); nplan++; }
 			continue;
 		}
+		if (!strcmp (cm.op, "storm")) { storm (atol (w1)); continue; }
 		if (!strcmp (cm.op, "join")) { if (have_bg) { pthread_join (bg, NULL); have_bg = 0; } continue; }
 		if (!strcmp (cm.op, "sleepms")) { struct timespec ts = { 0, 0 }; ts.tv_sec = atoi (w1) / 1000; ts.tv_nsec = (atoi (w1) % 1000) * 1000000L; nanosleep (&ts, NULL); continue; }
 		cm.h = atoi (w1);
